@@ -178,4 +178,5 @@ harness!(c12_q_send_loop_2, 3, send_case::<2, false>());
 harness!(c12_t_send_loop_3, 4, send_case::<3, false>());
 harness!(c12_t_send_loop_4, 5, send_case::<4, false>());
 harness!(c12_w_send_loop_2, 3, send_case::<2, true>());
-harness!(c12_t_send_retry_2, 4, retry_case::<2>());
+// NOT REGISTERED (`c12_x_*`): ran out of memory (26 GB) in the thorough tier
+harness!(c12_x_send_retry_2, 4, retry_case::<2>());
